@@ -437,6 +437,20 @@ pub(crate) fn eval_expr(ctx: &Context, expr: &Expr) -> Result<Value, QueryError>
     }
 }
 
+fn has_degree(expr: &Expr) -> bool {
+    match *expr {
+        Expr::UnaryOp(ref unaryop) => match unaryop.op {
+            UnaryOpType::Degree(_) => true,
+            _ => has_degree(&unaryop.expr),
+        },
+        Expr::BinOp(ref binop) => has_degree(&binop.left) || has_degree(&binop.right),
+        Expr::Mul { ref exprs } => exprs.iter().any(has_degree),
+        Expr::Call { ref args, .. } => args.iter().any(has_degree),
+        Expr::Of { ref expr, .. } => has_degree(expr),
+        _ => false,
+    }
+}
+
 pub fn eval_unit_name(
     ctx: &Context,
     expr: &Expr,
@@ -454,6 +468,13 @@ pub fn eval_unit_name(
         Expr::BinOp(ref binop) => match binop.op {
             BinOpType::Equals => match *binop.left {
                 Expr::Unit { ref name } => {
+                    // The definition is shown by name only, but a temperature
+                    // scale hidden in it still makes a compound target.
+                    if has_degree(&binop.right) {
+                        return Err(QueryError::generic(
+                            "Temperature conversions must not be compound units".to_string(),
+                        ));
+                    }
                     let mut map = BTreeMap::new();
                     map.insert(name.clone(), 1);
                     Ok((map, Numeric::one()))
